@@ -42,9 +42,11 @@ fn gen_case(rng: &mut Rng, small: bool) -> Case {
     }
     match rng.below(6) {
         0 => cfg.fail_at = Some(rng.range(1, 10)),
-        1 => {
-            cfg.max_mem = Some(rng.below(200));
-            cfg.prealloc = Some(0);
+        1 | 2 => {
+            // a finite limit with a zero or non-zero preallocation (never above the limit: debug-build precondition)
+            let m = rng.range(8, 400);
+            cfg.max_mem = Some(m);
+            cfg.prealloc = Some(*rng.pick(&[0usize, 1, 8, 16, 64]).min(&m));
         }
         _ => {}
     }
